@@ -160,8 +160,11 @@ def body_reframe(case, acc):
     for integ in ["generic"] + (["rdflib"] if rdflib_ok else []):
         try:
             orig = norm_events(pyj.parse_flat(data, integ))
-        except Exception as exc:  # noqa: BLE001
-            raise HarnessError(f"original stream does not parse ({integ}): {exc!r}") from exc
+        except Exception:  # noqa: BLE001
+            # the un-reframed stream does not parse: C04's / C01's subject, nothing to compare a re-framing with
+            if acc is not None:
+                acc.count("original_unparsable_skipped")
+            return None
         try:
             got = norm_events(pyj.parse_flat(new, integ))
         except Exception as exc:  # noqa: BLE001
